@@ -9,4 +9,6 @@ import SuppModel.Props.MDict
 #print axioms SuppModel.MDict.MDict_iter_nodup
 #print axioms SuppModel.MDict.MDict_iter_mem
 #print axioms SuppModel.MDict.MDict_iter_order
+#print axioms SuppModel.MDict.MDict_items_wf
+#print axioms SuppModel.MDict.MDict_values
 #print axioms SuppModel.MDict.MDict_addKey
